@@ -25,6 +25,7 @@ func TestVerif(t *testing.T) {
 		"c18_long":    c18Long,
 		"c18_lines":   c18Lines,
 		"c18_history": c18History,
+		"c18_columns": c18Columns,
 	})
 }
 
@@ -682,6 +683,85 @@ func c18History(c *vrep.Ctx) {
 		if m := r.Note["msg"].(string); m != "" {
 			id := r.Note["id"].(string)
 			c.Violate("c18_history:"+strings.ReplaceAll(id, " ", "_"), id+": "+m, r, m)
+		}
+	})
+}
+
+// c18Columns: a string literal that contains comment markers, opening at EVERY column 0..300 of
+// its line and around the powers of two up to 2^17 (behind an identifier of that many letters, or
+// that many 2-byte letters), followed by a real comment on the next line; the reference lexer
+// decides. Positions inside a line are what column counters of any width see.
+func c18Columns(c *vrep.Ctx) {
+	langs := []int{2, langPython, langGo, 18, 32, langJS}
+	var cols []int
+	for n := 0; n <= 300; n++ {
+		cols = append(cols, n)
+	}
+	for k := 9; k <= 17; k++ {
+		for d := -3; d <= 3; d++ {
+			cols = append(cols, 1<<k+d)
+		}
+	}
+	if c.Thorough() {
+		for _, b := range []int{3 << 15, 1 << 18} {
+			for d := -3; d <= 3; d++ {
+				cols = append(cols, b+d)
+			}
+		}
+	}
+	c.R.Rule = fmt.Sprintf("%d languages x string literal forms (double, single, and for Python triple quotes of both kinds; for Go raw strings) containing the language's comment markers x EVERY opening column 0..300 and 2^k-3..2^k+3 for k=9..17 (ASCII or 2-byte filler letters): Parse against the reference lexer; non-trivial = all cases", len(langs))
+	body := func(r *vx.Run) {
+		lang := langs[r.Choose(len(langs), "language")]
+		quotes := []string{`"`, `'`}
+		switch lang {
+		case langPython:
+			quotes = append(quotes, `"""`, `'''`)
+		case langGo:
+			quotes = append(quotes, "`")
+		}
+		q := quotes[r.Choose(len(quotes), "quote")]
+		if r.Scout() {
+			return
+		}
+		col := cols[r.Choose(len(cols), "column")]
+		wide := r.Choose(2, "filler") == 1
+		d := refTable[lang]
+		marker := d.single
+		if marker == "" {
+			marker = d.mstart
+		}
+		single := func(t string) string {
+			if d.single != "" {
+				return d.single + " " + t
+			}
+			return d.mstart + " " + t + " " + d.mend
+		}
+		fill := strings.Repeat("a", col)
+		if wide {
+			fill = strings.Repeat("é", col)
+		}
+		src := fill + q + "secret " + marker + " not a comment " + d.mstart + q + "\n" + single("real") + "\nrest()\n"
+		msg := ""
+		var got Comments
+		func() {
+			defer func() {
+				if x := recover(); x != nil {
+					msg = fmt.Sprint("panic: ", x)
+				}
+			}()
+			got = Parse([]byte(src), language.Language(lang))
+		}()
+		want := refLex(src, lang)
+		if msg == "" && fmtGot(got) != fmtRef(want) {
+			msg = fmt.Sprintf("Parse found %.200s, the reference lexer %.200s", fmtGot(got), fmtRef(want))
+		}
+		r.Note = map[string]interface{}{"id": fmt.Sprintf("language %d quote %s at column %d (2-byte filler: %v)", lang, q, col, wide), "msg": msg}
+	}
+	c.Run(vSplit(c, 0, 2), body, func(r *vx.Run) {
+		c.R.Nontrivial++
+		if m := r.Note["msg"].(string); m != "" {
+			id := r.Note["id"].(string)
+			c.Violate("c18_columns:"+strings.ReplaceAll(id, " ", "_"), id+": "+m, r, m)
 		}
 	})
 }
